@@ -21,6 +21,8 @@ func checkC19(c *Ctx) {
 	c.Rule("C19-R3", "guarded wScreen state (size, cells, flags, fallback map, the JS grid) is accessed only with the mutex held; no blocking event post while holding it")
 	c.Rule("C19-R4", "mouse handlers are installed only under the matching MouseFlags test, button-less moves are dropped unless motion is enabled")
 	c.Rule("C19-R5", "the JS drawCell call is dominated by the Dirty test and paired with SetDirty(false); palette table for the 16 basic colours equals the xterm values")
+	c.Rule("C19-R9", "whoever clears the page outside a draw (Suspend) is followed by an invalidation of every cell before the next draw (Resume), or the page stays blank until Sync")
+	c.Expect("C19-R9", 1)
 	c.Rule("C19-R8", "Fini closes the quit channel exactly once and in every state (sync.Once around an unconditional close), so Fini after Suspend releases pollers and a second Fini is harmless")
 	c.Expect("C19-R8", 1)
 	c.Rule("C19-R7", "the key callback looks a key up under its plain DOM name whatever the modifiers are (the Ctrl-letter names are an additional, earlier lookup)")
@@ -133,6 +135,37 @@ func checkC19(c *Ctx) {
 	}
 	checkC19Mouse(c, p)
 	checkC19Keys(c, p)
+	{
+		// callers of clearScreen other than draw
+		var outside []string
+		for _, fn := range p.modFns {
+			if fn.Pkg != p.Tcell || recvTypeName(topFunc(fn)) != "tcell.wScreen" || fn.Name() == "draw" {
+				continue
+			}
+			for range callsIn(fn, func(n string, _ *ssa.CallCommon) bool { return strings.HasSuffix(n, "wScreen).clearScreen") }) {
+				outside = append(outside, fn.Name())
+			}
+		}
+		ok := true
+		detail := fmt.Sprintf("clearScreen outside draw: %v", outside)
+		for _, o := range outside {
+			if o != "Suspend" {
+				ok = false
+				detail += "; unexpected caller " + o
+			}
+		}
+		if len(outside) > 0 {
+			inv := false
+			if rs := p.Fn("tcell:(*wScreen).Resume"); rs != nil {
+				for range callsIn(rs, func(n string, _ *ssa.CallCommon) bool { return strings.HasSuffix(n, "CellBuffer).Invalidate") }) {
+					inv = true
+				}
+			}
+			ok = ok && inv
+			detail += fmt.Sprintf("; Resume invalidates the cells: %v", inv)
+		}
+		c.Check(ok, "C19-R9", "Suspend/Resume:page-repainted", "-", detail)
+	}
 	if fini := p.Fn("tcell:(*wScreen).Fini"); fini != nil {
 		var target *ssa.Function
 		ncalls := 0
